@@ -84,3 +84,11 @@ CLAIMS["C10"] = {
     "note": "Trusts the literal reading of FILTERING.md encoded in the model (see assumptions in the evidence file).",
     "technique": "property-based testing (rapid): reference model of the documented filter rules + reference merge",
 }
+
+CLAIMS["C18"] = {
+    "text": "Start instants on / one nanosecond around / anywhere between boundaries, six intervals, offsets 0, inside, at and beyond the interval, and advancement patterns (exact next-deadline steps, small steps, jumps over 2..5 intervals, a consumer that reads late) "
+            "drive (1) the aligned ticker on a mock clock: every tick value must satisfy (t - offset) mod interval = 0 (recomputed with big integers from the zero time), strictly increase, the first be in (start, start+interval], and under exact stepping equal the clock reading; "
+            "(2) a real MetricFlusher with aligned flushing and a recording aggregator, stepped to each deadline only while parked: clock reading at aggregator invocation on a boundary, strictly increasing, first within one interval, and the elapsed time handed to Aggregator.Flush for every later flush a positive multiple of the interval equal to the distance of the flush times. Exploration.",
+    "note": "Needs the verif-tagged NewAlignedTicker re-export (internal/util). Real-time jitter is out of scope: the property is decided on a mock clock.",
+    "technique": "property-based testing (rapid) on a mock clock with an independent modular-arithmetic oracle",
+}
